@@ -29,9 +29,9 @@ def cases(ctx):
             yield {'N': s}
     rng = ctx.rng
     for i in range(1200 if not thorough else 12000):
-        s = gen.random_nfa(rng, names=ODD if i % 25 == 7 else None)
+        s = gen.big_subset_nfa(rng) if i % 40 == 11 else gen.random_nfa(rng, names=ODD if i % 25 == 7 else None)
         if not thorough or ctx.mine(i):
-            yield {'N': s, 'sched': [rng.randint(0, 5) for _ in range(8)]}
+            yield {'N': s, 'sched': [rng.randint(0, 5) for _ in range(8)], 'edit': i % 6 == 2}
 
 
 def lean_requests(c):
@@ -76,6 +76,31 @@ def judge(ctx, c, answers):
         ctx.violation('correspondence:nfa_to_dfa', {'case': c, 'impl': cd, 'model': la}, no_input=bad is None)
     if (enc.canon_nfa(N, drop_empty=False), str(N)) != before:
         ctx.violation('argument-mutated', {'case': c})
+    if c.get('edit') and len(c['N']['Q']) >= 2:
+        # history: the same NFA object, edited in place (a legal edit of its transition table), determinised again
+        import copy, random
+        r = random.Random(core.digest(c['N']))
+        spec2 = copy.deepcopy(c['N'])
+        p, q = r.choice(spec2['Q']), r.choice(spec2['Q'])
+        e = spec2['eps']
+        row = [t for t in spec2['delta'] if t[0] == p and t[1] == e]
+        if row and q in row[0][2] and len(row[0][2]) > 0 and r.random() < 0.5:
+            row[0][2].remove(q)
+            N.delta[p, e].discard(q)
+        elif row:
+            if q not in row[0][2]:
+                row[0][2].append(q)
+            N.delta[p, e].add(q)
+        else:
+            spec2['delta'].append([p, e, [q]])
+            N.delta[p, e] = {q}
+        g1 = call(nfa_to_dfa, N)
+        g2 = call(nfa_to_dfa, enc.build_nfa(spec2))
+        v1 = enc.canon_dfa(g1['ok']) if 'ok' in g1 else g1
+        v2 = enc.canon_dfa(g2['ok']) if 'ok' in g2 else g2
+        if v1 != v2 and oracles.subset_name_collision(enc.build_nfa(spec2)) is None:
+            ctx.violation('stale-result-after-argument-edit', {'case': c, 'edited': spec2, 'on_edited_object': v1, 'on_fresh_object': v2})
+        ctx.count('edit-history')
     f = gen.nfa_features(c['N'])
     ctx.count('states:%d' % min(len(D.Q), 8))
     ctx.count('eps' if f['eps_edges'] else 'no-eps')
